@@ -118,6 +118,18 @@ CHECKS = {
             'the subsequence law per filter stage, non-increasing heights and exact coordinate equality of the final indices.',
             'stage parameters are generated inside each stage\'s documented domain; the add_points_even tail only for completion/index validity',
             'DESIGN.md section 4 C08'),
+    'C16': ('runtime reference-model monitors (long double textbook formulas) on the numba metrics and every linear_fit wrapper, across dtype/layout specialisations',
+            'metrics.* against long-double formulas incl. eps guards, symmetry / sign / zero / range laws, every linear_fit *_points and (x,y,coef) '
+            'wrapper bit-identical to the metric applied to m*x+b, end-point fit through both end points, best-fit R2 vs a two-pass Pearson '
+            'formula and the adjusted correction; float64/int64 x contiguous/strided specialisations of the jitted code are each exercised.',
+            'R2 comparisons skip TSS below the cancellation floor; rmsle/rmspe/rpd asserted for y, y_hat >= 0',
+            'DESIGN.md section 4 C16'),
+    'C17': ('runtime reference-model monitors on the geometric and ranking primitives (long-double closed-segment / line distance, IoU, circumradius, rank laws), also on the calls made inside the simplifiers',
+            'shortest and perpendicular distances vs projection-clamp / cross-product models (clamp branches, a == b, sub-ranges), IoU laws, '
+            'Menger curvature vs the independent circumradius formula incl. symmetry and collinear triples, rank as an ordering permutation, '
+            'distances / similarity / triangle area; the monitors also observe every chord distance evaluated by rdp.rdp / rdp_fixed.',
+            'distance tolerance 64*eps*(|coords|max + chord) + rtol 1e-9; exact on integer grids where stated',
+            'DESIGN.md section 4 C17'),
 }
 
 BUILDING = {}   # id -> reason (properties not claimed yet)
